@@ -42,8 +42,11 @@ def adjacent_pairs(rng, info, d, docs):
             s2 = ReplaceStep(max(0, p - rng.randint(0, 2)), p, Slice.empty)                              # backspace
         else:
             sl = gen.random_slice(rng, docs)
-            s1 = ReplaceStep(p, min(size, p + rng.randint(0, 3)), sl)
-            s2 = ReplaceStep(p + sl.size, min(size + 5, p + sl.size + rng.randint(0, 2)), gen.random_slice(rng, docs))
+            t1_ = min(size, p + rng.randint(0, 3))
+            s1 = ReplaceStep(p, t1_, sl)
+            size1 = size + sl.size - (t1_ - p)
+            f2 = p + sl.size
+            s2 = ReplaceStep(f2, max(f2, min(size1, f2 + rng.randint(0, 2))), gen.random_slice(rng, docs))
         out.append((s1, s2))
     for _ in range(4):
         m = gen.gen_mark(rng, schema)
@@ -74,6 +77,8 @@ def run(ctx):
             if ctx.time_left() < 0:
                 break
             for s1, s2 in adjacent_pairs(rng, info, d, docs):
+                if any(getattr(x, "from_", 0) > getattr(x, "to", 0) for x in (s1, s2)):
+                    continue   # outside the guard from <= to
                 d1 = apply_doc(s1, d)
                 if d1 is None:
                     continue
